@@ -4,5 +4,6 @@ CONSTANTS
   Keys <- K2
   MaxCalls = 3
   WithAbort = TRUE
+  Modes <- ModesAll
 INVARIANT ModelProps
 CHECK_DEADLOCK FALSE
